@@ -70,8 +70,14 @@ func AddRepository(ctx context.Context, url string) error {
 	if err := os.MkdirAll(repositoriesDir, 0755); err != nil {
 		return fmt.Errorf("couldn't create plugin repositories directory: %w", err)
 	}
-	if err := os.WriteFile(filepath.Join(repositoriesDir, repo.Slug), data, 0644); err != nil {
+	// Every file in the repositories directory is decoded when repositories are listed: write the entry
+	// next to the directory and rename it into place, so that an interrupted write never leaves a truncated entry.
+	tmpPath := filepath.Join(filepath.Dir(repositoriesDir), ".repository-"+repo.Slug+".tmp")
+	if err := os.WriteFile(tmpPath, data, 0644); err != nil {
 		return fmt.Errorf("couldn't write repository entry: %w", err)
+	}
+	if err := os.Rename(tmpPath, filepath.Join(repositoriesDir, repo.Slug)); err != nil {
+		return fmt.Errorf("couldn't move repository entry into place: %w", err)
 	}
 
 	return nil
